@@ -26,6 +26,12 @@ theorem generic_address_conforms (io : Bool) (tsize addr : Nat)
   · rcases ht with rfl | rfl | rfl | rfl <;>
       simp [genericAddress, genericAddressRows, gasRows, render, Row.bytes, encFields, Fld.bytes, accessSizeOf]
 
+/-- the constructors refuse exactly the register types that have no Access Size code -/
+theorem generic_address_refused_iff (tsize : Nat) :
+    genericAddressRefuses tsize = false ↔ (tsize = 1 ∨ tsize = 2 ∨ tsize = 4 ∨ tsize = 8) := by
+  simp only [genericAddressRefuses, Bool.not_eq_false', Bool.or_eq_true, beq_iff_eq]
+  omega
+
 theorem pci_addr (device function register : Nat) (hd : device < 256) (hf : function < 256) (hr : register < 65536) :
     (((device % 256) <<< 32) ||| ((function % 256) <<< 16) ||| (register % 65536)) % 2 ^ 64
       = device * 2 ^ 32 + function * 2 ^ 16 + register := by
